@@ -11,6 +11,10 @@ open AxVerif.Sql AxVerif.Index
 def AgreeAt (f : Nat → Nat) (tys tys' : List Ty) (row row' : Row) (i : Nat) : Prop :=
   row'[f i]? = row[i]? ∧ tys'.getD (f i) .bigint = tys.getD i .bigint
 
+theorem isNullLit_mapCols (f : Nat → Nat) (e : Expr) : isNullLit (mapCols f e) = isNullLit e := by
+  cases e <;> simp [mapCols, isNullLit]
+
+mutual
 theorem rtInt32_mapCols (f : Nat → Nat) (tys tys' : List Ty) (e : Expr)
     (h : ∀ i ∈ cols e, tys'.getD (f i) .bigint = tys.getD i .bigint) :
     rtInt32 tys' (mapCols f e) = rtInt32 tys e := by
@@ -25,8 +29,27 @@ theorem rtInt32_mapCols (f : Nat → Nat) (tys tys' : List Ty) (e : Expr)
   | .pos e =>
     simp only [mapCols, rtInt32]
     exact rtInt32_mapCols f tys tys' e (fun i hi => h i (by simpa [cols] using hi))
+  | .caseWhen parts =>
+    simp only [mapCols, rtInt32]
+    exact rtInt32Results_mapCols f tys tys' parts (fun i hi => h i (by simpa [cols] using hi))
+  | .caseOf x parts =>
+    simp only [mapCols, rtInt32]
+    exact rtInt32Results_mapCols f tys tys' parts (fun i hi => h i (by simp [cols, hi]))
   | .not _ | .and _ _ | .or _ _ | .cmp _ _ _ | .arith _ _ _ | .like _ _ _ | .isNull _ _ | .between _ _ _ _
-  | .inList _ _ _ => simp [mapCols, rtInt32]
+  | .inList _ _ _ | .strFn _ _ | .concat _ _ => simp [mapCols, rtInt32]
+theorem rtInt32Results_mapCols (f : Nat → Nat) (tys tys' : List Ty) (es : List Expr)
+    (h : ∀ i ∈ colsList es, tys'.getD (f i) .bigint = tys.getD i .bigint) :
+    rtInt32Results tys' (mapColsList f es) = rtInt32Results tys es := by
+  match es with
+  | [] => simp [mapColsList, rtInt32Results]
+  | [e] =>
+    have he := rtInt32_mapCols f tys tys' e (fun i hi => h i (by simp [colsList, hi]))
+    simp only [mapColsList, rtInt32Results, he, isNullLit_mapCols]
+  | c :: r :: rest =>
+    have hr := rtInt32_mapCols f tys tys' r (fun i hi => h i (by simp [colsList, hi]))
+    have hs := rtInt32Results_mapCols f tys tys' rest (fun i hi => h i (by simp [colsList, hi]))
+    simp only [mapColsList, rtInt32Results, hr, hs, isNullLit_mapCols]
+end
 
 mutual
 theorem eval_mapCols (f : Nat → Nat) (tys tys' : List Ty) (row row' : Row) (e : Expr)
@@ -70,6 +93,13 @@ theorem eval_mapCols (f : Nat → Nat) (tys tys' : List Ty) (row row' : Row) (e 
   | .isNull n a =>
     have ha := eval_mapCols f tys tys' row row' a (fun i hi => h i (by simpa [cols] using hi))
     simp [mapCols, eval, ha]
+  | .strFn g a =>
+    have ha := eval_mapCols f tys tys' row row' a (fun i hi => h i (by simpa [cols] using hi))
+    simp [mapCols, eval, ha]
+  | .concat a b =>
+    have ha := eval_mapCols f tys tys' row row' a (fun i hi => h i (by simp [cols, hi]))
+    have hb := eval_mapCols f tys tys' row row' b (fun i hi => h i (by simp [cols, hi]))
+    simp [mapCols, eval, ha, hb]
   | .between n a lo hi =>
     have ha := eval_mapCols f tys tys' row row' a (fun i hi => h i (by simp [cols, hi]))
     have hl := eval_mapCols f tys tys' row row' lo (fun i hi => h i (by simp [cols, hi]))
@@ -79,6 +109,42 @@ theorem eval_mapCols (f : Nat → Nat) (tys tys' : List Ty) (row row' : Row) (e 
     have ha := eval_mapCols f tys tys' row row' a (fun i hi => h i (by simp [cols, hi]))
     have hx := evalList_mapCols f tys tys' row row' xs (fun i hi => h i (by simp [cols, hi]))
     simp [mapCols, eval, ha, hx]
+  | .caseWhen parts =>
+    have hp := evalCaseWhen_mapCols f tys tys' row row' parts (fun i hi => h i (by simpa [cols] using hi))
+    simp [mapCols, eval, hp]
+  | .caseOf x parts =>
+    have hx := eval_mapCols f tys tys' row row' x (fun i hi => h i (by simp [cols, hi]))
+    have hp := fun v => evalCaseOf_mapCols f tys tys' row row' v parts (fun i hi => h i (by simp [cols, hi]))
+    simp only [mapCols, eval, hx]
+    cases eval {} tys row x with
+    | error e => rfl
+    | ok v => exact hp v
+theorem evalCaseWhen_mapCols (f : Nat → Nat) (tys tys' : List Ty) (row row' : Row) (es : List Expr)
+    (h : ∀ i ∈ colsList es, AgreeAt f tys tys' row row' i) :
+    evalCaseWhen {} tys' row' (mapColsList f es) = evalCaseWhen {} tys row es := by
+  match es with
+  | [] => simp [mapColsList, evalCaseWhen]
+  | [e] =>
+    have he := eval_mapCols f tys tys' row row' e (fun i hi => h i (by simp [colsList, hi]))
+    simp [mapColsList, evalCaseWhen, he]
+  | c :: r :: rest =>
+    have hc := eval_mapCols f tys tys' row row' c (fun i hi => h i (by simp [colsList, hi]))
+    have hr := eval_mapCols f tys tys' row row' r (fun i hi => h i (by simp [colsList, hi]))
+    have hs := evalCaseWhen_mapCols f tys tys' row row' rest (fun i hi => h i (by simp [colsList, hi]))
+    simp [mapColsList, evalCaseWhen, hc, hr, hs]
+theorem evalCaseOf_mapCols (f : Nat → Nat) (tys tys' : List Ty) (row row' : Row) (v : Value) (es : List Expr)
+    (h : ∀ i ∈ colsList es, AgreeAt f tys tys' row row' i) :
+    evalCaseOf {} tys' row' v (mapColsList f es) = evalCaseOf {} tys row v es := by
+  match es with
+  | [] => simp [mapColsList, evalCaseOf]
+  | [e] =>
+    have he := eval_mapCols f tys tys' row row' e (fun i hi => h i (by simp [colsList, hi]))
+    simp [mapColsList, evalCaseOf, he]
+  | c :: r :: rest =>
+    have hc := eval_mapCols f tys tys' row row' c (fun i hi => h i (by simp [colsList, hi]))
+    have hr := eval_mapCols f tys tys' row row' r (fun i hi => h i (by simp [colsList, hi]))
+    have hs := evalCaseOf_mapCols f tys tys' row row' v rest (fun i hi => h i (by simp [colsList, hi]))
+    simp [mapColsList, evalCaseOf, hc, hr, hs]
 theorem evalList_mapCols (f : Nat → Nat) (tys tys' : List Ty) (row row' : Row) (es : List Expr)
     (h : ∀ i ∈ colsList es, AgreeAt f tys tys' row row' i) :
     evalList {} tys' row' (mapColsList f es) = evalList {} tys row es := by
@@ -104,10 +170,13 @@ mutual
 theorem mapCols_id (e : Expr) : mapCols (fun i => i) e = e := by
   match e with
   | .lit _ | .col _ => simp [mapCols]
-  | .not a | .neg a | .pos a | .isNull _ a => simp [mapCols, mapCols_id a]
-  | .and a b | .or a b | .cmp _ a b | .arith _ a b | .like _ a b => simp [mapCols, mapCols_id a, mapCols_id b]
+  | .not a | .neg a | .pos a | .isNull _ a | .strFn _ a => simp [mapCols, mapCols_id a]
+  | .and a b | .or a b | .cmp _ a b | .arith _ a b | .like _ a b | .concat a b =>
+    simp [mapCols, mapCols_id a, mapCols_id b]
   | .between _ a b c => simp [mapCols, mapCols_id a, mapCols_id b, mapCols_id c]
   | .inList _ a xs => simp [mapCols, mapCols_id a, mapColsList_id xs]
+  | .caseWhen parts => simp [mapCols, mapColsList_id parts]
+  | .caseOf x parts => simp [mapCols, mapCols_id x, mapColsList_id parts]
 theorem mapColsList_id (es : List Expr) : mapColsList (fun i => i) es = es := by
   match es with
   | [] => simp [mapColsList]
@@ -141,7 +210,7 @@ theorem holds_conjuncts (tys : List Ty) (r : Row) : ∀ (e : Expr), holds tys e 
     rw [holds_and, holds_conjuncts tys r a, holds_conjuncts tys r b]
     simp [conjuncts, List.all_append]
   | .lit _ | .col _ | .not _ | .neg _ | .pos _ | .or _ _ | .cmp _ _ _ | .arith _ _ _ | .like _ _ _ | .isNull _ _
-  | .between _ _ _ _ | .inList _ _ _ => by simp [conjuncts]
+  | .between _ _ _ _ | .inList _ _ _ | .caseWhen _ | .caseOf _ _ | .strFn _ _ | .concat _ _ => by simp [conjuncts]
 
 theorem holds_foldl_and (tys : List Ty) (r : Row) (ps : List Expr) (acc : Expr) :
     holds tys (ps.foldl (fun a q => Expr.and a q) acc) r = (holds tys acc r && ps.all (holds tys · r)) := by
@@ -595,7 +664,7 @@ theorem project_cols_agree (tys : List Ty) (mapping : List Nat) (r r' : Row) (hr
     have hgd : r.getD mapping[j] .null = v := by simp [List.getD_eq_getElem?_getD, hv]
     rw [hgd] at hc
     have hcast := conformsV_castTo _ _ hc
-    simp only [inferTy] at this
+    simp only [inferTy, inferTyO, Option.getD] at this
     rw [hcast] at this
     simp only [Except.ok.injEq] at this
     rw [List.getElem?_eq_getElem hj', ← this]
@@ -638,7 +707,7 @@ theorem filterPushdownProject_eval (st : Store) (hst : wfStore st = true) (p : E
     · have : mapping.getD i i = mapping[i] := by simp [List.getD_eq_getElem?_getD, hlt]
       show r[mapping.getD i i]? = r''[i]?
       rw [this, hag i hlt]
-    · simp [List.getD_eq_getElem?_getD, hlt, inferTy]
+    · simp [List.getD_eq_getElem?_getD, hlt, inferTy, inferTyO]
   · simp at hpr
 
 /-! ### JoinCommutativity -/
@@ -669,12 +738,12 @@ theorem restoreOrder_tys (ltys rtys : List Ty) :
   · conv => rhs; rw [← range_map_getD ltys .bigint]
     apply List.map_congr_left
     intro i _
-    simp [Function.comp, inferTy, List.getD_eq_getElem?_getD, List.getElem?_append_right]
+    simp [Function.comp, inferTy, inferTyO, List.getD_eq_getElem?_getD, List.getElem?_append_right]
   · conv => rhs; rw [← range_map_getD rtys .bigint]
     apply List.map_congr_left
     intro i hi
     simp only [List.mem_range] at hi
-    simp [Function.comp, inferTy, List.getD_eq_getElem?_getD, List.getElem?_append_left hi]
+    simp [Function.comp, inferTy, inferTyO, List.getD_eq_getElem?_getD, List.getElem?_append_left hi]
 
 theorem restoreOrder_length (lw rw : Nat) : (restoreOrder lw rw).length = lw + rw := by
   simp [restoreOrder]
@@ -710,7 +779,7 @@ theorem projectRow_restore (ltys rtys : List Ty) (a b : Row) (ha : conformsRow l
       have hia : i < a.length := hla ▸ h
       rw [h1, List.getElem?_eq_getElem hia]
       have h2 : inferTy (rtys ++ ltys) (Expr.col (rtys.length + i)) = ltys.getD i .bigint := by
-        simp [inferTy, List.getD_eq_getElem?_getD, List.getElem?_append_right]
+        simp [inferTy, inferTyO, List.getD_eq_getElem?_getD, List.getElem?_append_right]
       have hc := conformsRow_at ha i hia
       have hg : a.getD i .null = a[i] := by simp [List.getD_eq_getElem?_getD, hia]
       rw [hg] at hc
@@ -723,7 +792,7 @@ theorem projectRow_restore (ltys rtys : List Ty) (a b : Row) (ha : conformsRow l
       have h1 : (b ++ a)[i - ltys.length]? = b[i - ltys.length]? := List.getElem?_append_left hib
       rw [h1, List.getElem?_eq_getElem hib]
       have h2 : inferTy (rtys ++ ltys) (Expr.col (i - ltys.length)) = rtys.getD (i - ltys.length) .bigint := by
-        simp [inferTy, List.getD_eq_getElem?_getD, List.getElem?_append_left (hlb ▸ hib)]
+        simp [inferTy, inferTyO, List.getD_eq_getElem?_getD, List.getElem?_append_left (hlb ▸ hib)]
       have hc := conformsRow_at hb (i - ltys.length) hib
       have hg : b.getD (i - ltys.length) .null = b[i - ltys.length] := by simp [List.getD_eq_getElem?_getD, hib]
       rw [hg] at hc
@@ -866,7 +935,8 @@ theorem conjuncts_cols : ∀ (e0 e : Expr), e ∈ conjuncts e0 → ∀ i ∈ col
     · exact Or.inr (conjuncts_cols q e he i hi)
   | .lit _, e, he, i, hi | .col _, e, he, i, hi | .not _, e, he, i, hi | .neg _, e, he, i, hi | .pos _, e, he, i, hi
   | .or _ _, e, he, i, hi | .cmp _ _ _, e, he, i, hi | .arith _ _ _, e, he, i, hi | .like _ _ _, e, he, i, hi
-  | .isNull _ _, e, he, i, hi | .between _ _ _ _, e, he, i, hi | .inList _ _ _, e, he, i, hi => by
+  | .isNull _ _, e, he, i, hi | .between _ _ _ _, e, he, i, hi | .inList _ _ _, e, he, i, hi
+  | .caseWhen _, e, he, i, hi | .caseOf _ _, e, he, i, hi | .strFn _ _, e, he, i, hi | .concat _ _, e, he, i, hi => by
     simp only [conjuncts, List.mem_singleton] at he
     subst he
     exact hi
